@@ -257,7 +257,13 @@ class Executor(object):
                 if z3.is_int_value(c) and c.as_long() == 1:
                     cnt = z3.If(n.t < 0, 0, n.t)
                     return [Outcome('normal', st, VSeq(smt.s_rep(sat(s_.t, 0), cnt), s_.elem, s_.pytype))]
+                if z3.is_app(s_.t) and s_.t.decl().eq(smt.s_single):      # one-element literal, e.g. b'\xff' * n
+                    cnt = z3.If(n.t < 0, 0, n.t)
+                    return [Outcome('normal', st, VSeq(smt.s_rep(s_.t.arg(0), cnt), s_.elem, s_.pytype))]
             raise Unsupported('sequence op %s' % sym)
+        if sym == '+' and (hasattr(a, 'concat_') or hasattr(b, 'concat_')):      # guarded lists (pyvc/finite.py)
+            r = a.concat_(self, b, st) if hasattr(a, 'concat_') else b.concat_(self, a, st, left=False)
+            return [Outcome('normal', st, r)]
         if isinstance(a, (VList, VTuple)) and isinstance(b, (VList, VTuple)) and sym == '+' and type(a) is type(b):
             return [Outcome('normal', st, type(a)(a.items + b.items))]
         if isinstance(a, VList) and sym == '*' and isinstance(b, VInt) and b.concrete() is not None:
@@ -292,6 +298,18 @@ class Executor(object):
             if ok is None:
                 return out
             st = ok
+        if sym == '<<' and not b.is_bv() and not a.is_bv() and b.concrete() is None:
+            # symbolic shift amount: case split over 0..64 (an amount that can exceed 64 is unsupported)
+            rest = st
+            for c in range(0, 65):
+                if rest is None:
+                    break
+                t, rest = self.split(rest, b.t == c)
+                if t is not None:
+                    out.append(Outcome('normal', t, int_binop('<<', a, VInt(c))))
+            if rest is not None:
+                raise Unsupported('symbolic shift amount not bounded by 64 (line %d)' % getattr(node, 'lineno', 0))
+            return out
         with collect() as col:
             r = int_binop(sym, a, b)
         self.add_facts(st, col)
@@ -417,6 +435,10 @@ class Executor(object):
         return [Outcome('normal', st, r)]
 
     def contains(self, container, x, st):
+        if hasattr(container, 'contains_'):        # finite-domain values (pyvc/finite.py)
+            return container.contains_(x)
+        if isinstance(container, VStr) and isinstance(x, VStr):
+            return VBool(z3.BoolVal(x.s in container.s))
         if isinstance(container, (VTuple, VList)):
             return VBool(z3.Or([eq_op(x, it).t for it in container.items] + [z3.BoolVal(False)]))
         if isinstance(container, VDict):
@@ -436,6 +458,10 @@ class Executor(object):
         if isinstance(container, VOpaque) or isinstance(x, VOpaque):
             f = z3.Function('v_in', smt.Val, smt.Val, smt.B)
             return VBool(f(to_val(x), to_val(container)))
+        if isinstance(container, VObj):             # heap-object collection models (pyvc/symcoll.py)
+            m = self.reg.models.get(container.cls)
+            if m is not None and hasattr(m, 'contains'):
+                return m.contains(self, container, x, st)
         raise Unsupported('in on %r' % (container,))
 
     def e_IfExp(self, node, st, fr):
@@ -508,6 +534,9 @@ class Executor(object):
         if isinstance(v, (VSeq, VList, VDict, VStr, VTuple, VInt)):
             return [Outcome('normal', st, VPy(BuiltinMethod(v, name)))]
         if isinstance(v, VOpaque):
+            hook = getattr(self.reg, 'opaque_attr', {}).get(name)      # modelled method of an opaque value
+            if hook is not None:
+                return [Outcome('normal', st, hook(self, v, st))]
             f = z3.Function('v_attr_' + name, smt.Val, smt.Val)
             return [Outcome('normal', st, VOpaque(f(v.t)))]
         raise Unsupported('getattr %s on %r' % (name, v))
@@ -547,9 +576,23 @@ class Executor(object):
                         out.extend(self.index(base, o2.val, o2.st, node))
         return out
 
+    def simp_ite(self, st, t, depth=0):
+        """Resolve top-level if-then-else terms whose condition is decided by the
+        path condition (keeps slice bounds free of Python's clamping case splits)."""
+        t = z3.simplify(t)
+        if depth > 6 or not (z3.is_app(t) and t.decl().kind() == z3.Z3_OP_ITE):
+            return t
+        c, a, b = t.children()
+        if not smt.feasible(st.pc + [z3.Not(c)], 150):
+            return self.simp_ite(st, a, depth + 1)
+        if not smt.feasible(st.pc + [c], 150):
+            return self.simp_ite(st, b, depth + 1)
+        return t
+
     def slice_(self, base, lo, hi, st):
         if isinstance(base, VSeq):
             l, h = norm_slice(base, lo, hi)
+            l, h = self.simp_ite(st, l), self.simp_ite(st, h)
             return VSeq(smt.s_slice(base.t, l, h), base.elem, base.pytype)
         if isinstance(base, (VList, VTuple)):
             def c(v):
@@ -641,6 +684,10 @@ class Executor(object):
         if isinstance(base, VOpaque):
             f = z3.Function('v_getitem', smt.Val, smt.Val, smt.Val)
             return [Outcome('normal', st, VOpaque(f(base.t, to_val(idx))))]
+        if isinstance(base, VObj):                  # heap-object collection models (pyvc/symcoll.py)
+            m = self.reg.models.get(base.cls)
+            if m is not None and hasattr(m, 'getitem'):
+                return m.getitem(self, base, idx, st, node)
         raise Unsupported('index on %r' % (base,))
 
     def e_Call(self, node, st, fr):
@@ -681,7 +728,7 @@ class Executor(object):
         from . import builtins_model
         recv_outs = self.eval(node.func.value, st.fork(), fr)
         if len(recv_outs) != 1 or recv_outs[0].kind != 'normal' or \
-                not isinstance(recv_outs[0].val, (VSeq, VList)):
+                not (isinstance(recv_outs[0].val, (VSeq, VList)) or hasattr(recv_outs[0].val, 'mutate_')):
             return None
         out = []
         for o in self.eval(node.func.value, st, fr):
@@ -728,7 +775,21 @@ class Executor(object):
                 continue
             items = self.iter_items(o.val, o.st)
             if items is None:
-                raise Unsupported('comprehension over symbolic-length iterable (line %d)' % node.lineno)
+                cs = getattr(self.reg, 'comp_symbolic', None)
+                r = cs(self, node, g, o.val, o.st, fr) if cs is not None else None
+                if r is None and g.ifs:            # filter over a sequence of symbolic length (pyvc/finite.py)
+                    from . import finite
+                    r = finite.comp_filter(self, node, g, o.val, o.st, fr)
+                if r is None:
+                    raise Unsupported('comprehension over symbolic-length iterable (line %d)' % node.lineno)
+                out.append(Outcome('normal', o.st, r))
+                continue
+            if self.opts.get('guarded_comp'):      # opt-in: no forking on symbolic filter conditions (pyvc/finite.py)
+                from . import finite
+                r = finite.comp_static(self, node, g, items, o.st, fr)
+                if r is not None:
+                    out.append(Outcome('normal', o.st, r if mk is VList or not isinstance(r, VList) else mk(r.items)))
+                    continue
             accs = [(o.st, [])]
             for it in items:
                 nxt = []
@@ -762,10 +823,24 @@ class Executor(object):
                 out.append(Outcome('normal', s, mk(vs)))
         return out
 
+    def loop_source(self, v, st):
+        """Index-range view of a stateful / composite iterable (iterator objects,
+        zip of iterators, ...) supplied by registered providers (pyvc/iters.py)."""
+        for prov in getattr(self.reg, 'loop_sources', ()):
+            src = prov(self, v, st)
+            if src is not None:
+                return src
+        return None
+
     def iter_items(self, v, st):
         """Statically known element list of an iterable, or None."""
         if isinstance(v, (VList, VTuple)):
             return list(v.items)
+        if hasattr(v, 'static_items_'):            # finite-domain values (pyvc/finite.py)
+            return v.static_items_()
+        src = self.loop_source(v, st)
+        if src is not None:
+            return src.static_items(self, st)
         if isinstance(v, VPy) and isinstance(v.obj, RangeObj):
             r = v.obj
             a, b, c = r.start.concrete(), r.stop.concrete(), r.step.concrete()
@@ -1102,6 +1177,21 @@ class Executor(object):
                         raise Unsupported('slice assignment')
                     res.extend(self.assign(tgt.value, VList(items), ob.st, fr))
                     continue
+                if isinstance(base, VSeq) and sl.step is None and isinstance(val, VSeq) and \
+                        (val.elem == 'byte' or base.elem != 'byte'):
+                    # x[lo:hi] = v  ==  x[:lo] + v + x[hi:]  (Python clamps lo, hi; hi < lo inserts at lo)
+                    acc, raises = self.eval_seq([p for p in (sl.lower, sl.upper) if p is not None], ob.st, fr)
+                    res.extend(raises)
+                    for (s, vs) in acc:
+                        vs = list(vs)
+                        lo = vs.pop(0) if sl.lower is not None else None
+                        hi = vs.pop(0) if sl.upper is not None else None
+                        l, h = norm_slice(base, lo, hi)
+                        n = slen(base.t)
+                        t = smt.s_concat(smt.s_concat(smt.s_slice(base.t, z3.IntVal(0), l), val.t),
+                                         smt.s_slice(base.t, h, n))
+                        res.extend(self.assign(tgt.value, VSeq(t, base.elem, base.pytype), s, fr))
+                    continue
                 raise Unsupported('slice assignment line %d' % tgt.lineno)
             for oi in self.eval(tgt.slice, ob.st, fr):
                 if oi.kind != 'normal':
@@ -1145,6 +1235,8 @@ class Executor(object):
                 elif isinstance(base, VOpaque):
                     s.events.append(('setitem', [base, oi.val, val], None))
                     res.append(Outcome('normal', s))
+                elif isinstance(base, VObj) and hasattr(self.reg.models.get(base.cls), 'setitem'):
+                    res.extend(self.reg.models[base.cls].setitem(self, base, oi.val, val, s, tgt))
                 else:
                     raise Unsupported('subscript store on %r' % (base,))
         return res
@@ -1157,6 +1249,11 @@ class Executor(object):
         acc, raises = self.eval_seq([load, node.value], st, fr)
         res.extend(raises)
         for s, (cur, rhs) in acc:
+            if isinstance(node.op, ast.Add) and (hasattr(cur, 'concat_') or
+                                                 (isinstance(cur, VList) and hasattr(rhs, 'concat_'))):
+                r = cur.concat_(self, rhs, s) if hasattr(cur, 'concat_') else rhs.concat_(self, cur, s, left=False)
+                res.extend(self.assign(tgt, r, s, fr))
+                continue
             if isinstance(cur, VList) and isinstance(node.op, ast.Add):
                 items = self.iter_items(rhs, s)
                 if items is None:
@@ -1224,6 +1321,11 @@ class Executor(object):
         return res
 
     def s_If(self, node, st, fr):
+        if self.opts.get('merge_if'):              # opt-in: pure arms are merged instead of forked (pyvc/finite.py)
+            from . import finite
+            merged = finite.try_merge_if(self, node, st, fr)
+            if merged is not None:
+                return merged
         res = []
         for o in self.eval(node.test, st, fr):
             if o.kind != 'normal':
@@ -1239,6 +1341,18 @@ class Executor(object):
         return res
 
     def s_Delete(self, node, st, fr):
+        if len(node.targets) == 1 and isinstance(node.targets[0], ast.Subscript) and \
+                not isinstance(node.targets[0].slice, ast.Slice):
+            # del obj[key] on heap-object collection models (pyvc/symcoll.py)
+            t = node.targets[0]
+            acc, raises = self.eval_seq([t.value, t.slice], st, fr)
+            res = list(raises)
+            for s, (base, key) in acc:
+                m = self.reg.models.get(base.cls) if isinstance(base, VObj) else None
+                if m is None or not hasattr(m, 'delitem'):
+                    raise Unsupported('del item of %r line %d' % (base, node.lineno))
+                res.extend(m.delitem(self, base, key, s, node))
+            return res
         for t in node.targets:
             if isinstance(t, ast.Name):
                 st.env.pop(t.id, None)
@@ -1386,6 +1500,11 @@ class Executor(object):
                 res.extend(gen)
                 continue
             inv = self._loop_spec(fr, ordinal, node)
+            if inv is None:
+                src = self.loop_source(it, o.st)
+                if src is not None and getattr(src, 'stateful', False) and \
+                        any(isinstance(n, ast.Break) for n in ast.walk(node)):
+                    raise Unsupported('break inside an unrolled loop over an iterator object (line %d)' % node.lineno)
             items = self.iter_items(it, o.st) if inv is None else None
             if items is not None:
                 res.extend(self._unroll_for(node, items, o.st, fr))
@@ -1450,6 +1569,9 @@ class Executor(object):
             elif isinstance(iterable, VSeq):
                 seq_iter = iterable
                 lo, hi, step = VInt(0), VInt(slen(iterable.t)), 1
+            elif self.loop_source(iterable, st) is not None:
+                seq_iter = self.loop_source(iterable, st)      # object with lo, hi, elem(ex, st, i), done(ex, st)
+                lo, hi, step = seq_iter.lo, seq_iter.hi, 1
             else:
                 raise Unsupported('for loop with invariant over %r' % (iterable,))
             if not isinstance(node.target, ast.Name) and seq_iter is None:
@@ -1484,7 +1606,9 @@ class Executor(object):
                     if isinstance(s.env.get(n), VSeq) and s.env[n].elem == 'byte':
                         s.assume(isb(s.env[n].t))
             for (objname, field) in inv.modifies_fields:
-                o = s.env.get(objname)
+                o = s.env.get(objname.split('.')[0])
+                for part in objname.split('.')[1:]:          # dotted path: field of a field (self.entriesDict)
+                    o = s.heap.get((o.oid, part)) if isinstance(o, VObj) else None
                 if isinstance(o, VObj) and (o.oid, field) in s.heap:
                     s.heap[(o.oid, field)] = fresh_like(s.heap[(o.oid, field)], field)
                     v = s.heap[(o.oid, field)]
@@ -1506,9 +1630,12 @@ class Executor(object):
         if kind == 'for':
             it_st.assume(i.t != end)
             if seq_iter is not None:
-                elem = VInt(sat(seq_iter.t, i.t))
-                if seq_iter.elem == 'byte':
-                    it_st.assume(z3.And(0 <= elem.t, elem.t <= 255))
+                if isinstance(seq_iter, VSeq):
+                    elem = VInt(sat(seq_iter.t, i.t))
+                    if seq_iter.elem == 'byte':
+                        it_st.assume(z3.And(0 <= elem.t, elem.t <= 255))
+                else:
+                    elem = seq_iter.elem_at(self, it_st, i.t)
                 for oa in self.assign(node.target, elem, it_st, fr):
                     body_states.append(oa.st)
             else:
@@ -1562,6 +1689,8 @@ class Executor(object):
                     pass
             if not self.feasible(a):
                 continue
+            if seq_iter is not None and not isinstance(seq_iter, VSeq):
+                seq_iter.done(self, a)             # exhausted iterator objects advance to their end
             if node.orelse:
                 res.extend(self.exec_block(node.orelse, a, fr))
             else:
